@@ -177,6 +177,7 @@ def build_probe_uod(hw: SimHardware, plog: ProbeLog, clock_read: Callable[[], fl
         .with_command("BoomInit", noop_exec, boom_init, fin_fn, arg_parse_fn=None)
         .with_command("BadArgs", noop_exec, init_fn, fin_fn, arg_parse_fn=bad_args_parse)
         .with_command_overlap(["LongA", "LongB"])
+        .with_command_overlap(["LongB", "LongC"])       # LongB is declared in two overlap groups
         .with_process_value("PV1")
         .with_process_value("OUT1")
     )
